@@ -516,6 +516,11 @@ def r14_10(ctx):
                     return True
                 if isinstance(e, ast.Call) and norm(e.func) == "int" and len(e.args) == 1 and isinstance(e.args[0], ast.BinOp) and isinstance(e.args[0].op, ast.Div):
                     return True
+                # min(.., q, ..) is 0 whenever q is; (max(1, q) and `q or 1` are the clamps that exclude it)
+                if isinstance(e, ast.Call) and norm(e.func) == "min" and not e.keywords and any(quotient(a) for a in e.args):
+                    return True
+                if isinstance(e, ast.IfExp):
+                    return quotient(e.body) or quotient(e.orelse)
                 return False
 
             def bad_defs(gg, rdd, st, var):
